@@ -287,7 +287,7 @@ Section LogProofs.
     induction H as [|s ss Hs _ IH]; [constructor|]. cbn [concat]. apply Forall_app. split; assumption.
   Qed.
 
-  (* F16: one record whose line does not deserialise (and has no raw LF) makes the whole log unreadable,
+  (* (old F16) one record whose line does not deserialise (and has no raw LF) makes the whole log unreadable,
      the valid records before and after it included *)
   Theorem one_bad_line_loses_all a r b : Forall valid a -> ~ In 10 (ser r) -> de (strip_cr (ser r)) = None ->
     read record de (write record ser (a ++ r :: b)) = None.
@@ -476,7 +476,7 @@ Lemma escape_class_matches_serde_table :
 Proof. split; vm_compute; reflexivity. Qed.
 
 Lemma stats_source_shape_ok :
-  forallb (fun e => snd e) stats_source_shape = true /\ length stats_source_shape = 7%nat.
+  forallb (fun e => snd e) stats_source_shape = true /\ length stats_source_shape = 11%nat.
 Proof. split; vm_compute; reflexivity. Qed.
 
 (* ---- the log stays appendable ---- *)
@@ -511,6 +511,54 @@ Section Shaped.
   Proof. apply (log_sessions_any record (fun r => render (shape r)) de valid de_ser shaped_line). Qed.
 End Shaped.
 
+(* ---- the records the property quantifies over: made from text ----
+   Since b5c1992 + abf6ba7 the serde contract needs NO exception for the records of the property.  It rests on
+   two named contracts (both monitored on the implementation in every run, both pinned by source-shape flags):
+     lexer : every Number of a record made from text (RecordKind::from_lint over a lexed, linted Document) is
+             finite — the only constructors of a Number are lex_number (accepts a candidate only when its f64
+             is_finite()) and lex_hex_number (a u64 as f64);
+     value : serde_json reads back the record it wrote whenever the record's Numbers are finite (derive output +
+             float_roundtrip: the float parser inverts the float printer on every finite f64 — before abf6ba7
+             this needed the extra premise "every Number is re-read exactly", before b5c1992 `lexer` was false). *)
+Section TextRecords.
+  Variable record : Type.
+  Variable shape : record -> list piece.
+  Variable de : bytes -> option record.
+  Variable F : Type.                              (* f64 *)
+  Variable finite : F -> Prop.                    (* f64::is_finite *)
+  Variable numbers : record -> list F.            (* the values of the Numbers in the record's context *)
+  Variable from_text : record -> Prop.
+  Hypothesis lexer_finite : forall r, from_text r -> Forall finite (numbers r).
+  Hypothesis value_roundtrip : forall r, Forall finite (numbers r) -> de (render (shape r)) = Some r.
+  Hypothesis shape_ok : forall r, Forall finite (numbers r) -> forallb lit_okb (shape r) = true.
+
+  Local Notation valid := (fun r : record => Forall finite (numbers r)).
+
+  Lemma from_text_valid rs : Forall from_text rs -> Forall valid rs.
+  Proof. intros H. eapply Forall_impl; [|exact H]. exact lexer_finite. Qed.
+
+  Lemma from_text_valid2 ss : Forall (Forall from_text) ss -> Forall (Forall valid) ss.
+  Proof. intros H. eapply Forall_impl; [|exact H]. exact from_text_valid. Qed.
+
+  Theorem text_records_roundtrip rs : Forall from_text rs ->
+    read record de (write record (fun r => render (shape r)) rs) = Some rs.
+  Proof. intros H. apply (roundtrip_shaped record shape de valid value_roundtrip shape_ok), from_text_valid, H. Qed.
+
+  Theorem text_records_append a b : Forall from_text a -> Forall from_text b ->
+    read record de (write record (fun r => render (shape r)) a ++ write record (fun r => render (shape r)) b) = Some (a ++ b).
+  Proof.
+    intros Ha Hb.
+    apply (log_append record (fun r => render (shape r)) de valid value_roundtrip (shaped_line record shape valid shape_ok));
+      apply from_text_valid; assumption.
+  Qed.
+
+  Theorem text_records_sessions file old ss : terminated file -> read record de file = Some old -> Forall (Forall from_text) ss ->
+    read record de (sessions record (fun r => render (shape r)) file ss) = Some (old ++ concat ss).
+  Proof.
+    intros Ht Ho H. apply (sessions_shaped record shape de valid value_roundtrip shape_ok file old ss Ht Ho), from_text_valid2, H.
+  Qed.
+End TextRecords.
+
 (* ---- a closed instance: a log whose records are bare JSON strings ---- *)
 Definition scalar_text (s : text) : Prop := Forall scalar s.
 
@@ -524,7 +572,9 @@ Theorem strings_log_sessions sss : Forall (Forall scalar_text) sss ->
   read text de_str (sessions text ser_str [] sss) = Some (concat sss).
 Proof. apply (log_sessions text ser_str de_str scalar_text de_ser_str ser_str_line). Qed.
 
-(* ---- when the serde contract fails for one record ---- *)
+(* ---- outside the contract: what ONE line that serde does not read back as written does to the log.
+   These are the effects of F16 (fixed by b5c1992) and F29 (fixed by abf6ba7); no record made from text is
+   outside the contract any more, the theorems say what the reverse of either fix would bring back. ---- *)
 Section ContractFails.
   Variable record : Type.
   Variable ser : record -> bytes.
@@ -533,7 +583,7 @@ Section ContractFails.
   Hypothesis de_ser : forall r, valid r -> de (ser r) = Some r.
   Hypothesis ser_line : forall r, valid r -> line_ok (ser r).
 
-  (* F29: a record that deserialises to a DIFFERENT record comes back as that other record, in place *)
+  (* (old F29) a record that deserialises to a DIFFERENT record comes back as that other record, in place *)
   Theorem drifting_line_changes_the_log a r r' b :
     Forall valid a -> Forall valid b -> line_ok (ser r) -> de (ser r) = Some r' ->
     read record de (write record ser (a ++ r :: b)) = Some (a ++ r' :: b).
@@ -556,9 +606,10 @@ Section ContractFails.
   Qed.
 End ContractFails.
 
-(* ---- F16, concretely: the three lines harper-stats writes for (a configuration update, the lint on
-   `1e999TH`, a configuration update) and serde_json's verdict on each — the middle one, whose Number
-   value was printed as null, is rejected — as observed on the implementation (corpus/C19/f16.json) ---- *)
+(* ---- HISTORY (F16, fixed by b5c1992): the three lines harper-stats WROTE, before the fix, for (a configuration
+   update, the lint on `1e999TH`, a configuration update) and serde_json's verdict on each — the middle one,
+   whose Number value was printed as null, is rejected.  Since the fix `1e999TH` lexes as 1e99 + 9TH and the
+   line below is no longer produced from any text (corpus/C19/f16.json now passes the oracle). ---- *)
 From Coq Require Import String Ascii.
 Definition bytes_of_string (s : string) : bytes := map N_of_ascii (list_ascii_of_string s).
 
